@@ -41,6 +41,7 @@ type Prog struct {
 	NormSites   []string          // call sites inlined before analysis
 	NormSkipped []string          // helpers left as calls, with the reason
 	NormNotes   []string          // fallbacks
+	Renames     []string          // symbols renamed back to the pinned vocabulary (rename.go)
 	NormOverlay map[string][]byte // the analysed (transformed) sources
 
 	cgOnce sync.Once
@@ -139,8 +140,39 @@ func Load(dir string, overlay map[string][]byte) (*Prog, error) {
 	// helper normalisation (see normalize.go): up to three rounds for nested helpers
 	if !NoNormalize {
 		cur := overlay
+		// rename normalisation (see rename.go): types first, then everything owned by them
+		for pass := 0; pass < 2 && PinnedSymbols != ""; pass++ {
+			pairs := detectRenames(pkgs, pass == 0)
+			if len(pairs) == 0 {
+				continue
+			}
+			curNow := cur
+			ov := renameOverlay(pkgs, pairs, func(fn string) []byte {
+				if b, ok := curNow[fn]; ok {
+					return b
+				}
+				b, _ := os.ReadFile(fn)
+				return b
+			})
+			next := map[string][]byte{}
+			for k, v := range cur {
+				next[k] = v
+			}
+			for k, v := range ov {
+				next[k] = v
+			}
+			pk2, n2, first2, err2 := loadPkgs(dir, next)
+			if err2 != nil || n2 > 0 {
+				p.NormNotes = append(p.NormNotes, fmt.Sprintf("rename pass %d abandoned (renamed files did not type-check: %v %s); analysed as written", pass, err2, first2))
+				continue
+			}
+			for _, pr := range pairs {
+				p.Renames = append(p.Renames, fmt.Sprintf("%s %s.%s -> %s", pr.from.Kind, pr.from.Owner, pr.from.Name, pr.to))
+			}
+			pkgs, cur = pk2, next
+		}
 		nz := &normalizer{overlay: map[string][]byte{}}
-		for k, v := range overlay {
+		for k, v := range cur {
 			nz.overlay[k] = v
 		}
 		for round := 1; round <= 3; round++ {
